@@ -188,6 +188,16 @@ func (o cOp) String() string {
 		return fmt.Sprintf("h.ReadDir(%d)", o.N)
 	case "HStat":
 		return "h.Stat()"
+	case "HWriteAt":
+		return fmt.Sprintf("h.WriteAt(%d bytes %q, %d)", len(o.Data), clip(o.Data), o.N)
+	case "HReadAt":
+		return fmt.Sprintf("h.ReadAt(%d, %d)", o.N, o.Mtime)
+	case "HSeek":
+		return fmt.Sprintf("h.Seek(%d, %d)", o.N, o.Mtime)
+	case "HChmod":
+		return fmt.Sprintf("h.Chmod(%04o)", o.Perm)
+	case "HSync":
+		return "h.Sync()"
 	}
 	return "h.Close()"
 }
@@ -246,6 +256,38 @@ func execCOp(fs hackpadfs.FS, st *taskState, o cOp) string {
 		}
 		sort.Strings(l)
 		return fmt.Sprintf("%v %s", l, errClass(err))
+	case "HWriteAt":
+		if st.h == nil {
+			return "nohandle"
+		}
+		n, err := hackpadfs.WriteAtFile(st.h, o.Data, int64(o.N))
+		return fmt.Sprintf("%d %s", n, errClass(err))
+	case "HReadAt":
+		if st.h == nil {
+			return "nohandle"
+		}
+		b := make([]byte, o.N)
+		n, err := hackpadfs.ReadAtFile(st.h, b, o.Mtime)
+		if n < 0 || n > len(b) {
+			n = 0
+		}
+		return fmt.Sprintf("%d %q %s", n, b[:n], readClass(n, err))
+	case "HSeek":
+		if st.h == nil {
+			return "nohandle"
+		}
+		off, err := hackpadfs.SeekFile(st.h, int64(o.N), int(o.Mtime))
+		return fmt.Sprintf("%d %s", off, errClass(err))
+	case "HChmod":
+		if st.h == nil {
+			return "nohandle"
+		}
+		return errClass(hackpadfs.ChmodFile(st.h, o.Perm))
+	case "HSync":
+		if st.h == nil {
+			return "nohandle"
+		}
+		return errClass(hackpadfs.SyncFile(st.h))
 	case "HStat":
 		if st.h == nil {
 			return "nohandle"
@@ -439,15 +481,25 @@ func genC15Program(t *T) (family int, init []Op, progs [][]cOp) {
 					flag := []int{hackpadfs.FlagReadWrite | hackpadfs.FlagCreate, hackpadfs.FlagReadWrite, hackpadfs.FlagReadWrite | hackpadfs.FlagAppend | hackpadfs.FlagCreate, hackpadfs.FlagReadOnly}[c.Draw(4)]
 					o = cOp{H: "HOpen", Op: Op{P: hot, Flag: flag}}
 				} else {
-					switch c.Weighted(4, 3, 1, 1) {
+					switch c.Weighted(4, 3, 1, 1, 2, 2, 1, 1, 1) {
 					case 0:
 						o = cOp{H: "HWrite", Op: Op{Data: uniqueData(step, []int{3, 9, 1}[c.Draw(3)])}}
 					case 1:
 						o = cOp{H: "HRead", N: []int{16, 4, 1}[c.Draw(3)]}
 					case 2:
 						o = cOp{H: "HTruncate", N: c.Draw(6)}
-					default:
+					case 3:
 						o = cOp{H: "HStat"}
+					case 4:
+						o = cOp{H: "HWriteAt", N: []int{0, 2, 7, 12}[c.Draw(4)], Op: Op{Data: uniqueData(step, []int{3, 9, 1}[c.Draw(3)])}}
+					case 5:
+						o = cOp{H: "HReadAt", N: []int{16, 4, 1}[c.Draw(3)], Op: Op{Mtime: int64([]int{0, 2, 7}[c.Draw(3)])}}
+					case 6:
+						o = cOp{H: "HSeek", N: []int{0, 2, -1}[c.Draw(3)], Op: Op{Mtime: int64(c.Draw(3))}}
+					case 7:
+						o = cOp{H: "HChmod", Op: Op{Perm: []hackpadfs.FileMode{0600, 0644, 0400}[c.Draw(3)]}}
+					default:
+						o = cOp{H: "HSync"}
 					}
 				}
 			}
